@@ -114,6 +114,55 @@ theorem gaussPerturb_tri (sp : Bool) (R : QMat.Mat) (e p : QMat.Vec)
   · simp only [hc] at h
     simpa using h.symm
 
+/-- **Witness of the defect repaired by 147a320** (`np.allclose(R, np.tril(R))` as triangularity test): the old
+test accepts `1e-9·[[1,1],[0,1]]`, forward substitution on it does not solve `R p = e`; the exact test of the current
+code sends the same matrix to the general solver, whose result does. -/
+theorem allclose_triangular_counterexample :
+    isLowerTriAllclose [[1 / 1000000000, 1 / 1000000000], [0, 1 / 1000000000]] = true
+    ∧ QMat.mulVec [[1 / 1000000000, 1 / 1000000000], [0, 1 / 1000000000]]
+        (fwdXs (QMat.entry [[1 / 1000000000, 1 / 1000000000], [0, 1 / 1000000000]]) (fun i => [0, 1].getD i 0) 2) ≠ [0, 1]
+    ∧ solverOf false [[1 / 1000000000, 1 / 1000000000], [0, 1 / 1000000000]] = Solver.dense
+    ∧ gaussPerturb false [[1 / 1000000000, 1 / 1000000000], [0, 1 / 1000000000]] [0, 1] = some [-1000000000, 1000000000]
+    ∧ QMat.mulVec [[1 / 1000000000, 1 / 1000000000], [0, 1 / 1000000000]] [-1000000000, 1000000000] = [0, 1] := by
+  decide +kernel
+
+lemma isLowerTri_exact (R : QMat.Mat) (hsq : QMat.ncols R = R.length) (h : isLowerTri R = true) :
+    ∀ i j, i < R.length → j < R.length → i < j → QMat.entry R i j = 0 := by
+  intro i j hi hj hij
+  unfold isLowerTri at h
+  rw [List.all_eq_true] at h
+  have h1 := h i (List.mem_range.mpr hi)
+  rw [List.all_eq_true] at h1
+  have h2 := h1 j (List.mem_range.mpr (by rw [hsq]; exact hj))
+  simp only [Bool.or_eq_true, decide_eq_true_eq, beq_iff_eq] at h2
+  rcases h2 with h2 | h2
+  · omega
+  · exact h2
+
+/-- **Triangular branch at full strength** (code since 147a320): whenever the model selects the triangular solver
+for a square `R` and returns a perturbation, that perturbation solves `R p = e` — any size. -/
+theorem gaussPerturb_tri_solves (R : QMat.Mat) (e p : QMat.Vec) (hsq : QMat.ncols R = R.length)
+    (hs : solverOf false R = Solver.triLower) (h : gaussPerturb false R e = some p) :
+    ∀ i, i < R.length → ∑ j ∈ Finset.range R.length, QMat.entry R i j * p.getD j 0 = e.getD i 0 := by
+  have htri : isLowerTri R = true := by
+    unfold solverOf at hs
+    by_cases ht : isLowerTri R = true
+    · exact ht
+    · simp [ht] at hs
+  have hdiag : ∀ i, i < R.length → QMat.entry R i i ≠ 0 := by
+    intro i hi h0
+    unfold gaussPerturb at h
+    rw [hs] at h
+    have : ((List.range R.length).any fun i => QMat.entry R i i == 0) = true := by
+      rw [List.any_eq_true]
+      exact ⟨i, List.mem_range.mpr hi, by simp [h0]⟩
+    simp [this] at h
+  rw [gaussPerturb_tri false R e p hs h]
+  exact fwdXs_solves (QMat.entry R) (fun i => e.getD i 0) R.length (isLowerTri_exact R hsq htri) hdiag
+
+example : solverOf false [[2, 0], [1, 4]] = Solver.triLower ∧ gaussPerturb false [[2, 0], [1, 4]] [1, 0] = some [1 / 2, -1 / 8] := by
+  decide +kernel
+
 /-- **A draw is affine in the normal vector with offset the mean**: `sample = mean + perturbation`. -/
 theorem gaussSample_eq (sp : Bool) (mean : QMat.Vec) (R : QMat.Mat) (e : QMat.Vec) :
     gaussSample sp mean R e = (gaussPerturb sp R e).map (fun p => QMat.vadd (bcast R.length mean) p) := rfl
